@@ -136,9 +136,11 @@ def planFileAct (cfg : Cfg) (m : FileMeta) : Option DNode → Act
 def planEntry (cfg : Cfg) (dst : Map DNode) (e : SEntry) : Task :=
   match e.kind with
   -- a non-directory at the path of a source directory is planned as a creation, which then fails
-  -- (`create_dir_all` → EEXIST; src/sync/strategy.rs `plan_file_async` after fix 481828a); a
-  -- destination symlink there is outside the model's WF
-  | .dir => ⟨match dst.get? e.rel with | some .dir => .skip | _ => .create, e.rel, .dir⟩
+  -- (`create_dir_all` → EEXIST; src/sync/strategy.rs `plan_file_async` after fix 481828a);
+  -- a destination SYMLINK there (placed by an earlier run when the source entry was still a link) is replaced by a
+  -- directory, never followed: planned as an update (src/sync/mod.rs planning loop, fix 862af11); what the source has
+  -- below it is absent from the destination map (links are not resolved), hence planned as creations
+  | .dir => ⟨match dst.get? e.rel with | some .dir => .skip | some (.symlink _) => .update | _ => .create, e.rel, .dir⟩
   | .file m n => ⟨planFileAct cfg m (dst.get? e.rel), e.rel, .file m n⟩
   | .symlink text tgt =>
     match cfg.links with
@@ -259,6 +261,20 @@ def relinkFile (w : World) (p first : Path) : Option World :=
     | _, some (.file fm) => some { w with dst := d.set p (.file fm) }
     | _, _ => none
 
+/-- `read_link` answers a link → `remove(path, false)`: a symlink at the path is unlinked (the link itself,
+    never what it points to); any other node, or nothing, is left as it is -/
+def unlinkLink (dst : Map DNode) (p : Path) : Map DNode :=
+  match dst.get? p with
+  | some (.symlink _) => dst.erase p
+  | _ => dst
+
+/-- the destination that the `create_dir_all` of a directory task sees: `Transferrer::update` of a directory
+    entry removes a symlink standing at the path first (src/sync/transfer.rs `update`, fix 862af11: the planner
+    sends a directory there only when the destination holds a link where the source has a directory);
+    `Transferrer::create` does not probe -/
+def dirBase (act : Act) (dst : Map DNode) (p : Path) : Map DNode :=
+  if act = .update then unlinkLink dst p else dst
+
 /-- what one task does to the world when run to completion; `none` = the task fails -/
 def perform (cfg : Cfg) (w : World) (t : Task) : Option World :=
   match t.act with
@@ -275,7 +291,7 @@ def perform (cfg : Cfg) (w : World) (t : Task) : Option World :=
     else
       match t.payload with
       | .nothing => some w
-      | .dir => (mkdirAll w.dst t.rel).map fun d => { w with dst := d }
+      | .dir => (mkdirAll (dirBase act w.dst t.rel) t.rel).map fun d => { w with dst := d }
       | .symlink text => writeSymlink w t.rel text
       | .file m nlink =>
         if (act = .create || act = .update) && cfg.hardlinks && decide (1 < nlink) then
